@@ -1,4 +1,5 @@
 import KG.Base.Json
+import KG.Gen.C19
 /-!
 # Model of the API-backed limiter store (C19)
 
@@ -325,6 +326,31 @@ window â€” after the snapshot, right before entry number `at` of it is written â
 whole store call `intr` (granularity: store calls land between two `createOrUpdate`s of the flush). The flush
 goes on with its snapshot. If the flush fails before, or has fewer than `at + 1` entries, the window never opens
 and `intr` does not run. -/
+
+/-- which methods hold the store mutex for their whole duration (regenerated from the source: `KG.Gen.C19`) -/
+structure Locks where
+  flush : Bool
+  delete : Bool
+  deleteUpstream : Bool
+  save : Bool          -- write-through `Save` only (a periodic `Save` touches nothing but the cache)
+  load : Bool
+deriving DecidableEq, Repr
+
+def genLocks : Locks :=
+  { flush := KG.Gen.C19.flushHoldsMutex, delete := KG.Gen.C19.deleteHoldsMutex,
+    deleteUpstream := KG.Gen.C19.deleteUpstreamHoldsMutex, save := KG.Gen.C19.saveExcludesFlush,
+    load := KG.Gen.C19.loadHoldsMutex }
+
+/-- can a call of another goroutine run inside a running flush of a store in mode `wt`?
+    (the mutex is trusted to exclude its holders; `restart` is not a call) -/
+def mayRunInside (L : Locks) (wt : Bool) : Op â†’ Bool
+  | .save _ _ => !(L.flush && L.save && wt)
+  | .delete _ _ => !(L.flush && L.delete)
+  | .deleteUpstream _ _ => !(L.flush && L.deleteUpstream)
+  | .flush _ => !L.flush
+  | .stop _ => !L.flush
+  | .load => !(L.flush && L.load)
+  | .restart _ _ => false
 
 inductive OpI
   | plain (op : Op)
